@@ -102,6 +102,7 @@ pub fn run_history(opts: &Opts, ops: &[AbsOp], st: &mut Stats) -> Result<(), Fai
         crate::driver::Layout::Synthetic => "layout-synthetic",
         crate::driver::Layout::Twin => "layout-twin",
         crate::driver::Layout::Exotic => "layout-exotic",
+        crate::driver::Layout::Rewritten => "layout-rewritten",
     });
     if t.iter().any(|e| matches!(e, Ev::Key { code, .. } if keys().by_code(*code).map(|k| k.numpad).unwrap_or(false))) {
         st.label("has-keypad-key");
@@ -626,7 +627,34 @@ fn long_lived_stream(stream: usize, limit: usize, st: &mut Stats) -> Result<(), 
     Ok(())
 }
 
+/// "Returns normally" whatever LOADABLE things the user's auto-correct list holds (empty strings, other scripts, emoji,
+/// values that mix ASCII with another script, keys with spaces ...): the list is present from the start and also
+/// arrives late (update-engine), its keys are typed alone and with suffixes.  Only panics are judged here.
+fn loadable_user_values(run: &Run) {
+    use crate::props::c10::{check_fault, check_late, odd_content, Fault};
+    let docs = odd_content();
+    run.exhaustive(
+        "loadable-user-auto-correct-values-of-every-kind",
+        &docs,
+        |_| (),
+        |doc, st, _| {
+            for with_data in [true, false] {
+                for r in [check_fault(&Fault::Autocorrect(doc.clone()), with_data, st), check_late(doc, with_data, true, st), check_late(doc, with_data, false, st)] {
+                    if let Err(f) = r {
+                        if f.kind.contains("panic") {
+                            return Err(f);
+                        }
+                    }
+                }
+            }
+            st.label("user-value-documents");
+            Ok(())
+        },
+    );
+}
+
 pub fn run(run: &Run) {
+    loadable_user_values(run);
     let streams: Vec<usize> = (0..3).collect();
     let limit = run.tier.pick(90_000, 400_000);
     run.exhaustive("one-context-through-tens-of-thousands-of-distinct-word-parts", &streams, |_| (), |&s, st, _| long_lived_stream(s, limit, st));
@@ -662,7 +690,7 @@ pub fn replay(_run: &Run, case: &Value) -> Result<(), Failure> {
         return long_lived_stream(l["stream"].as_u64().unwrap_or(0) as usize, l["events"].as_u64().unwrap_or(0) as usize + 8, &mut Stats::new());
     }
     let opts = Opts::parse(case["opts"].as_str().unwrap_or_default());
-    if case.get("transitions").is_some() {
+    if case.get("transitions").is_some() || case.get("file").is_some() || case.get("late_injection").is_some() {
         return match crate::props::c10::replay(_run, case) {
             Err(f) if f.kind.contains("panic") => Err(f),
             _ => Ok(()),
